@@ -53,7 +53,7 @@ def run(ctx, replay=None):
             _, idx = np.unique(c, axis=0, return_index=True)
             c = c[np.sort(idx)]
             v = np.array([rng.randint(-256, 256) / 16.0 + 0.1 * c[i, 0] for i in range(len(c))])
-            cls = rng.choice(['Variogram', 'Variogram', 'Directional', 'Cross'])
+            cls = rng.choice(['Variogram', 'Variogram', 'Directional', 'Cross', 'Sampled'])
             form_c = rng.choice(['ndarray', 'ndarray', 'list', 'metricspace'])
             form_v = rng.choice(['ndarray', 'ndarray', 'list'])
             bf = rng.choice(['even', 'uniform', 'custom'])
@@ -82,7 +82,10 @@ def run(ctx, replay=None):
                     V = DirectionalVariogram(c_in, v_in, azimuth=30, tolerance=90, **kw)
                 else:
                     arg_c = MetricSpace(c.copy(), 'euclidean') if form_c == 'metricspace' else c_in
-                    V = Variogram(arg_c, v_in, **kw)
+                    if cls == 'Sampled' and form_c != 'metricspace':
+                        V = Variogram(arg_c, v_in, samples=0.7, binning_random_state=rng.choice([0, 7, 42]), **kw)       # seeded random sub-sample of the pairs
+                    else:
+                        V = Variogram(arg_c, v_in, **kw)
                 snap = snapshot(V)
             except Exception as e:
                 ctx.count('rejected', type(e).__name__ + ':' + str(e)[:40])
@@ -130,6 +133,7 @@ def run(ctx, replay=None):
                         ops.append([2, l, 0])
                     elif o == 'clone':
                         clone = V.clone()
+                        clone.preprocessing(force=True)          # the copy recomputes from what it holds: same results
                         if same_snap(snap, snapshot(clone)):
                             ctx.problem('oracle', 'clone() does not reproduce the observable results (%s)' % same_snap(snap, snapshot(clone)), case, None, {'what': 'clone-differs'})
                         ops.append([4])
@@ -143,6 +147,7 @@ def run(ctx, replay=None):
                         ops.append([2, next_loc - 1, 1])
                     elif o == 'pickle':
                         P = pickle.loads(pickle.dumps(V))
+                        P.preprocessing(force=True)
                         if same_snap(snap, snapshot(P)):
                             ctx.problem('oracle', 'a pickle round trip does not reproduce the observable results (%s)' % same_snap(snap, snapshot(P)), case, None, {'what': 'pickle-differs'})
                         ops.append([4])
@@ -202,6 +207,51 @@ def run(ctx, replay=None):
             ctx.tests['kriging_value_isolation'] = ctx.tests.get('kriging_value_isolation', 0) + 1
             if not np.allclose(z1, z2, equal_nan=True):
                 ctx.problem('oracle', 'OrdinaryKriging is affected by later changes to the caller\'s value array (coordinates as %s)' % form, {'form': form}, {'before': z1.tolist(), 'after': z2.tolist()}, {'what': 'kriging-values-alias'})
+        # ---- a construction with another metric in between does not change later constructions (no state shared between instances)
+        try:
+            kind, cm = gen.point_set(rng, n=20, dim=2, kind='dyadic')
+            vm = np.array([rng.randint(-256, 256) / 16.0 for _ in range(len(cm))])
+            first = snapshot(Variogram(cm, vm, n_lags=5))
+            for other_metric in ('mahalanobis', 'seuclidean', 'minkowski'):
+                try:
+                    _ = Variogram(cm * np.array([3.0, 0.5]) + 1.0, vm, n_lags=5, dist_func=other_metric).experimental
+                except Exception:
+                    ctx.count('other_metric_rejected', other_metric)
+                try:
+                    again = snapshot(Variogram(cm, vm, n_lags=5))
+                    diff = same_snap(first, again)
+                except Exception as e:
+                    diff = 'raises %s' % type(e).__name__
+                if diff:
+                    ctx.problem('oracle', 'after a %s variogram was built in the same process, an identical euclidean construction gives other results (%s)' % (other_metric, diff), {'metric_in_between': other_metric}, None,
+                                {'what': 'state-shared-between-instances'})
+                    break
+            ctx.tests['metric_in_between_runs'] = ctx.tests.get('metric_in_between_runs', 0) + 1
+        except Exception as e:
+            ctx.count('metric_in_between_rejected', type(e).__name__)
+        # ---- seeded clustering on a LARGE input (more than 50 000 pair distances): two constructions under different states of the
+        # global generator give the same lag edges
+        for t in range(1 if not ctx.thorough() else 3):
+            import time as _time
+            t0_ = _time.time()
+            nbig = 325 + 5 * t
+            cb = np.array([[rng.randint(0, 40000) / 64.0, rng.randint(0, 40000) / 64.0] for _ in range(nbig)])
+            vb = np.array([rng.randint(-256, 256) / 16.0 for _ in range(nbig)])
+            try:
+                np.random.seed(1)
+                A_ = Variogram(cb, vb, bin_func='kmeans', n_lags=5, fit_method=None)
+                ba = np.asarray(A_.bins, float).copy()
+                np.random.seed(999)
+                _ = np.random.rand(17)
+                B_ = Variogram(cb, vb, bin_func='kmeans', n_lags=5, fit_method=None)
+                bb = np.asarray(B_.bins, float)
+                if len(ba) != len(bb) or not np.allclose(ba, bb, rtol=1e-12, atol=1e-12):
+                    ctx.problem('oracle', 'seeded k-means binning of %d points (%d distances) is not reproducible between two constructions' % (nbig, nbig * (nbig - 1) // 2), {'n_points': nbig},
+                                {'first': ba.tolist(), 'second': bb.tolist()}, {'what': 'kmeans-large-input'})
+                ctx.tests['large_kmeans_runs'] = ctx.tests.get('large_kmeans_runs', 0) + 1
+                ctx.extra['large_kmeans_seconds'] = round(_time.time() - t0_, 1)
+            except Exception as e:
+                ctx.count('large_kmeans_rejected', type(e).__name__)
         # ---- reproducibility: repeated constructions in this process and in fresh processes (different hash seed, different global RNG state)
         nrep = 2 if not ctx.thorough() else 8
         for t in range(nrep):
